@@ -652,6 +652,7 @@ type recResult struct {
 // C01's subject).
 type nestRec struct {
 	mu      sync.Mutex
+	pristine string
 	root    string
 	imgRoot string
 	parent  *image
@@ -695,8 +696,15 @@ func (nr *nestRec) after(op, rel, rel2 string, n int64) {
 	}
 	nr.n++
 	dst := filepath.Join(nr.imgRoot, fmt.Sprintf("%s-n%02d", filepath.Base(nr.root), nr.n))
-	if e := copyTree(nr.root, dst); e != nil {
+	// data/ as it is now; WAL and series index as the image had them before it was opened (see
+	// multi.go: a copy of the directory of an open index is not a crash state)
+	if e := copyTree(filepath.Join(nr.root, "data"), filepath.Join(dst, "data")); e != nil {
 		return
+	}
+	for _, sub := range []string{"wal", "db0"} {
+		if e := copyTree(filepath.Join(nr.pristine, sub), filepath.Join(dst, sub)); e != nil {
+			return
+		}
 	}
 	relocateTxn(dst, nr.root)
 	ents, lg, _ := listDisk(dst)
@@ -708,6 +716,15 @@ func recoverImage(img *image, nParts int, nestBudget int, imgRoot string) recRes
 	var rows []engine.VerifRow
 	var err error
 	nr := &nestRec{root: img.dir, imgRoot: imgRoot, parent: img, budget: nestBudget}
+	if nestBudget > 0 {
+		nr.pristine = img.dir + ".pristine"
+		for _, sub := range []string{"wal", "db0"} {
+			if e := copyTree(filepath.Join(img.dir, sub), filepath.Join(nr.pristine, sub)); e != nil {
+				nr.budget = 0
+			}
+		}
+		defer os.RemoveAll(nr.pristine)
+	}
 	theMux.set(img.dir, nr)
 	perr := hx.Safe(func() {
 		var sh *engine.VerifShard
